@@ -18,6 +18,7 @@ import (
 	"net/netip"
 	"slices"
 	"sync"
+	"testing"
 	"time"
 	"unicode/utf8"
 
@@ -1154,6 +1155,17 @@ func vc14rtDiffDevice(spec *vc14rtDevSpec, got *agd.Device, pr *vc14rtProbe) (di
 	}
 
 	return diffs, false
+}
+
+// vc14rtNeedZones makes the run inconclusive (not a violation) if the time-zone
+// database is not available on this machine.
+func vc14rtNeedZones(t *testing.T) {
+	for _, z := range vc14rtZones {
+		if _, err := agdtime.LoadLocation(z); err != nil {
+			t.Logf("VERIF-INCONCLUSIVE: time zone %q cannot be loaded: %v", z, err)
+			t.FailNow()
+		}
+	}
 }
 
 // Local fakes (agdtest cannot be imported in-package: import cycle).
